@@ -499,8 +499,17 @@ func c07LongHistory(w *W, r *rand.Rand) {
 		w.Fail("long-history/compile", "%s does not compile: %s %v", src, co, perr)
 		return
 	}
-	kind := []CallKind{CallTryEval, CallEval}[r.Intn(2)]
-	K := []int{254, 255, 256, 257, 32766, 32767, 32768, 65534, 65535, 65536, 65537}[r.Intn(11)]
+	K := []int{65536, 255, 256, 257, 65536, 32767, 32768, 32769, 65536, 65535, 65537}[r.Intn(11)]
+	for _, kind := range []CallKind{CallTryEval, CallEval} {
+		if !c07LongHistoryRun(w, r, src, cc, e, tree, kind, K) {
+			return
+		}
+	}
+	w.Inc("long_histories")
+	w.Max("longest_history_calls", int64(2*K+8))
+}
+
+func c07LongHistoryRun(w *W, r *rand.Rand, src string, cc *eval.Config, e *eval.Expr, tree *Node, kind CallKind, K int) bool {
 	call := func(step int, vals map[string]interface{}) bool {
 		f := &RecFetcher{Vals: vals, Keys: cc.VariableKeyMap}
 		if kind == CallTryEval && vals["tier"] == nil {
@@ -532,28 +541,26 @@ func c07LongHistory(w *W, r *rand.Rand) {
 		if cycle == 1 {
 			tierA, tierB = tierB, tierA
 		}
-		if !call(0, map[string]interface{}{"enabled": true, "tier": tierA}) {
-			return
-		}
-		if cycle == 0 && kind == CallTryEval && r.Intn(2) == 0 {
+		first := map[string]interface{}{"enabled": true, "tier": tierA}
+		if cycle == 1 && kind == CallTryEval {
 			// ... or the deep variable was unavailable when it was last looked up
-			if !call(0, map[string]interface{}{"enabled": true, "tier": nil}) {
-				return
-			}
+			first = map[string]interface{}{"enabled": true, "tier": nil}
+		}
+		if !call(0, first) {
+			return false
 		}
 		for i := 1; i < K; i++ {
 			if !call(i, map[string]interface{}{"enabled": false, "tier": int64(9)}) {
-				return
+				return false
 			}
 		}
 		for d := 0; d < 3; d++ {
 			if !call(K+d, map[string]interface{}{"enabled": true, "tier": tierB}) {
-				return
+				return false
 			}
 		}
 	}
-	w.Inc("long_histories")
-	w.Max("longest_history_calls", int64(2*K+8))
+	return true
 }
 
 // c07AppendingOperator: a registered operator that returns its list argument with one more element appended (Go's
